@@ -13,4 +13,5 @@ let find (id : string) : sx -> sx =
   | "C06" -> model_C06
   | "C07" -> model_C07
   | "C08" -> model_C08
+  | "C10" -> model_C10
   | _ -> failwith ("no extracted model for " ^ id)
